@@ -113,3 +113,7 @@ def run(chk):
         uses = R.RAND in symx.val_atoms(an.overall)
         chk.ob("C01.R6", R.W(name), "extremum-guarded-by-random_order", uses,
                "the extremum over the history is taken only when random_order is set", node=an.ret, strength="N")
+    # R7: a supermartingale has to be non-negative for Ville's inequality: the betting factors 1 + lam_j (x_j - mu_j) are, for
+    # every x_j >= 0, exactly when 0 <= lam_j <= 1/mu_j -- the range rule of the registered bets (C13.R3)
+    from . import c13
+    chk.borrow(c13.run, {"C13.R3": "C01.R7"})
